@@ -56,12 +56,25 @@ def roll_oracle(chk, name, kw, g, rng):
     from pyroll.core import Roll
     size = max(g.usable_width, g.depth)
     data = {'groove': name, 'kwargs': kw}
-    for nominal, cl in ((size * rng.uniform(3, 8), None), (size * rng.uniform(3, 8), size * rng.uniform(0.3, 1.2))):
-        kwr = dict(groove=g, nominal_radius=nominal)
-        if cl is not None:
-            kwr['contact_length'] = cl
-        data = dict(data, nominal_radius=nominal, contact_length=cl)
-        roll = Roll(**kwr)
+    roll = None
+    # histories: a fresh roll; a fresh roll with a contact length; then the SAME roll object after its contact length and after its
+    # nominal radius were changed and the cache re-evaluated (as a solve loop does between iterations)
+    for step, (nominal, cl) in enumerate(((size * rng.uniform(3, 8), None), (size * rng.uniform(3, 8), size * rng.uniform(0.3, 1.2)),
+                                          (None, size * rng.uniform(0.3, 1.2)), (size * rng.uniform(3, 8), None))):
+        if step < 2:
+            kwr = dict(groove=g, nominal_radius=nominal)
+            if cl is not None:
+                kwr['contact_length'] = cl
+            roll = Roll(**kwr)
+        else:
+            if cl is not None:
+                roll.contact_length = cl
+            if nominal is not None:
+                roll.nominal_radius = nominal
+            roll.reevaluate_cache()
+            nominal = roll.nominal_radius
+        data = dict(data, nominal_radius=nominal, contact_length=cl, history='fresh roll' if step < 2 else 're-used roll after changing '
+                    + ('contact_length' if step == 2 else 'nominal_radius') + ' and reevaluate_cache()')
         sx, sz, sy = np.asarray(roll.surface_x), np.asarray(roll.surface_z), np.asarray(roll.surface_y)
         cp = np.asarray(g.contour_points)
         tol = 1e-9 * nominal
